@@ -49,6 +49,9 @@ THEOREMS = [
     "Typedpy.C09.counterexample_description_nul",
     "Typedpy.C09.always_compiles_statement_false",
     "Typedpy.C09.accepted_example",
+    "Typedpy.C09.emitted_module_clean",
+    "Typedpy.C09.definitions_defined_before_use",
+    "Typedpy.C09.counterexample_dict_order_forward_ref",
 ]
 RULE = ("schemas from a recursive generator over the keyword set (type, properties, required, additionalProperties, "
         "items as schema/list, uniqueItems, additionalItems, min/max*, multiplesOf, pattern, enum, allOf/anyOf/oneOf/not, "
